@@ -3,7 +3,7 @@ import os
 import re
 
 LEXEME = {
-    "Eof": "", "Whitespace": " ", "LineComment": "//c\n", "BlockComment": "/*c*/", "Error": "@",
+    "Eof": "", "Whitespace": " ", "LineComment": "//c\n", "BlockComment": "/*c*/", "Error": "\u00e9",
     "PreProcessor": "#define M\n",
     "Minus": "-", "Plus": "+", "LSquare": "[", "RSquare": "]", "LBrace": "{", "RBrace": "}",
     "LParen": "(", "RParen": ")", "Less": "<", "Greater": ">", "Colon": ":", "Semi": ";", "Comma": ",",
@@ -68,6 +68,8 @@ BATTERY = [
     "class A : ;\ndefvar = 1;\ndefset int = { }\n",
     "multiclass m",
     "class",
+    "def X { int a = \u00e9; } \u2192 \U0001F600",
+    "\u20ac",
 ]
 
 
@@ -165,10 +167,17 @@ def unit_alphabet(classes):
     return list(dict.fromkeys(x for x in out if x))
 
 
-def enumerate_unit(unit, classes, maxlen=6, limit=30000):
+# tokens no rule expects where they appear (recovery tokens and friends): every enumeration
+# includes them so that error paths are exercised too
+NOISE = [";", "x", "{", "}", ",", "include", "class"]
+
+
+def enumerate_unit(unit, classes, maxlen=6, limit=60000):
     import itertools
     pre, suf = CONTEXT.get(unit, ("", ""))
-    alpha = unit_alphabet(classes)
+    alpha = list(dict.fromkeys(unit_alphabet(classes) + NOISE))
+    while len(alpha) ** maxlen > limit and maxlen > 2:
+        maxlen -= 1
     out = []
     for L in range(0, maxlen + 1):
         for combo in itertools.product(alpha, repeat=L):
